@@ -10,7 +10,7 @@ Floats are half-integers only (k/2), matching `AHalf`.
 import copy
 import itertools
 
-from harness.core import coq_pystr, coq_Z
+from harness.core import coq_pystr, coq_Z, sx_sorted
 
 
 def atom_to_coq(a):
@@ -73,9 +73,9 @@ def canon(v):
     if isinstance(v, dict):
         return ["D", [[canon_atom(k), canon(x)] for k, x in v.items()]]
     if isinstance(v, frozenset):
-        return ["F", [canon_atom(x) for x in v]]
+        return ["F", sx_sorted([canon_atom(x) for x in v])]
     if isinstance(v, set):
-        return ["S", [canon_atom(x) for x in v]]
+        return ["S", sx_sorted([canon_atom(x) for x in v])]
     return canon_atom(v)
 
 
@@ -131,7 +131,7 @@ def _distinct_keys(rng, n, alias, strings, keygen=None):
     while len(keys) < n and tries < 40:
         tries += 1
         k = keygen(rng) if keygen else gen_atom(rng, alias, strings)
-        if isinstance(k, bytes) and rng.random() < 0.7:
+        if isinstance(k, bytes):   # bytes dict keys crash DeepDiff's path printer (finding F5); not in any quantifier
             continue
         if all(not (k == q) for q in keys):   # Python equality: one dict key
             keys.append(k)
